@@ -212,7 +212,7 @@ def run(ctx):
                 ctx.violated(r2, m, "gather(...)", "parameters are gathered through a local tensor but there is no batched/unbatched pair of definitions for it", node=m.node)
             else:
                 ok_t = A.unparse(t_val) == "pars"
-                ok_f = isinstance(f_val, ast.Call) and A.call_attr(f_val) == "reshape" and A.dotted(f_val.args[0]) == "pars" and A.const_value(f_val.args[1]) == (-1,)
+                ok_f = isinstance(f_val, ast.Call) and f_val.args and A.dotted(f_val.args[0]) == "pars" and ((A.call_attr(f_val) == "reshape" and len(f_val.args) > 1 and A.const_value(f_val.args[1]) in ((-1,), [-1], -1)) or (A.call_attr(f_val) == "ravel" and len(f_val.args) == 1 and not f_val.keywords))  # row-major ravel IS reshape(x, (-1,)) on every backend (C10.R8)
                 if ok_t and ok_f:
                     ctx.holds(r2, site, "unbatched: pars; batched: reshape(pars, (-1,)) before gather")
                 else:
